@@ -15,7 +15,7 @@ BUDGET = {"quick": 900, "thorough": 1500}
 
 def jobs(tier):
     js = []
-    codes = ["BSS", "BBS", "BIS", "BSM", "BSg", "BIk"] if tier == "quick" else ["BSS", "BBS", "BIS", "BSM", "BSg", "BBSS", "BISS", "BSIS", "BBSM", "BSFd", "BIk"]
+    codes = ["BSS", "BBS", "BIS", "BSM", "BSg", "BIk", "BkT"] if tier == "quick" else ["BSS", "BBS", "BIS", "BSM", "BSg", "BBSS", "BISS", "BSIS", "BBSM", "BSFd", "BIk", "BkT", "BTk"]
     for code in codes:
         for m in ("fifo", "lifo") if tier == "quick" else ("fifo", "lifo", "hifo"):
             js.append({"code": code, "method": m, "country": "us", "years": [2020, 2021, 2022], "filter": "to"})
